@@ -249,12 +249,14 @@ def run_engine(ctx: Ctx, n, want_visualize=False):
     return dict(stats=stats, mismatches=mism, obs=obs, cases=cases, all_defaults=all_defaults, kinds_seen=kinds_seen, fx=fx)
 
 
-def vouched(name, T, all_defaults):
+def vouched(name, T, all_defaults, module=None):
     if name is None:
         return True               # resolver called with a non-string: it raises before importing
     if name in (T or []) or name in all_defaults or name in FIXED:
         return True
-    mod = name.rsplit(".", 1)[0]
+    # a class named by archive data, looked up in a module where the loader checks the documented base class; the module
+    # is the resolver's own first argument when it is known (a looked-up name may itself contain dots)
+    mod = module if isinstance(module, str) else name.rsplit(".", 1)[0]
     return mod in GUARDED_MODULES
 
 
@@ -264,8 +266,10 @@ FORBIDDEN_AUDIT = ("open", "os.", "subprocess.", "socket.", "ctypes.", "shutil."
 def c01_oracle(c, T, r, all_defaults):
     """C01 evaluated on one instrumented load"""
     fails = []
-    for name in r["events"]:
-        if not vouched(name, T, all_defaults):
+    raw = r.get("raw_events") or []
+    for i, name in enumerate(r["events"]):
+        module = raw[i][1] if i < len(raw) and len(raw) == len(r["events"]) else None
+        if not vouched(name, T, all_defaults, module):
             fails.append(f"unvouched-resolution: load(trusted={T!r}) resolved {name!r}, which is neither in trusted nor default-trusted")
             break
     if r["outcome"] in ("untrusted",) and r["events"]:
